@@ -5,8 +5,8 @@ import json, subprocess
 ENV = "export GOFLAGS=-mod=mod GOPROXY=off GOSUMDB=off GOTOOLCHAIN=local"
 DISABLED = {}  # id -> reason (kept in not_applicable)
 T = {
- "C01": ("exploration", "Differential runtime monitor: generated schemas-by-configuration x generated valid queries run through the real executor under many schedulers/modes (-race), compared with an independent sequential reference evaluator and across configurations.",
-         "Trusts the harness reference evaluator and query generator; only queries inside thunder's documented feature set; race detector sees only executed interleavings.", "reference-model monitor + race detector over scheduler/mode sweeps", "3/C01"),
+ "C01": ("exploration", "Differential runtime monitor: generated schemas-by-configuration x generated valid queries run through the real executor under many schedulers/modes (-race), compared with an independent sequential reference evaluator and across configurations; also inside a rerunner over live data, where after fine-grained invalidations of values the resolvers read the re-runs must converge on the reference over the changed data.",
+         "Trusts the harness reference evaluator and query generator; only queries inside thunder's documented feature set; race detector sees only executed interleavings; convergence of the live-data leg is judged by an observed-quiescence classifier, not proven.", "reference-model monitor + race detector over scheduler/mode sweeps; convergence oracle at observed quiescence for the live-data leg", "3/C01"),
  "C02": ("exploration", "History monitor over a scripted websocket: every envelope is logged in socket order, a model client folds deltas (merge.ts port and merge.Merge); at observed quiescence the folded state must equal a fresh Execute on the final data; ordering rules (first update full, no update after unsubscribe processed) checked offline on the log.",
          "Quiescence is observed (activity counters), not proven; intermediate states are not compared; trusts merge.ts port.", "offline event-log checker + convergence oracle at quiescence, yield-hook schedule perturbation, race detector", "3/C02"),
  "C03": ("exploration", "Reference-model monitor: millions of generated (old,new) JSON pairs; Diff's delta, after JSON serialisation, is applied by thunder's Go merge and by a port of client/src/merge.ts and compared with StripKey(new); self-diff emptiness and argument immutability asserted on every pair.",
